@@ -130,6 +130,7 @@ class World2:
         seams.install_poison()
         seams.set_poison(cfg.get("poison", "none"))
         seams.reset_globals()
+        self.poison0 = seams.poison_count()
         self.cls = cfg["cls"]
         self.n = cfg.get("n", 4)
         self.actors = {}
@@ -306,7 +307,7 @@ class World2:
                 self.check_all(op.get("a"))
             if self.viol:
                 break
-        self.stats["poisoned_allocs"] = seams.poison_count()
+        self.stats["poisoned_allocs"] = seams.poison_count() - self.poison0
         return self.viol
 
     def actor(self, k):
@@ -454,8 +455,8 @@ class World2:
             if a.cls not in TRACKED:
                 return self.skip()
             delta = int(kindname[3:])
-            L = a.n + delta
-            if L < 0 or L == a.n:
+            L = max(a.n + delta, 0)  # "len-99": an empty track
+            if L == a.n:
                 return self.skip()
             it = make_item(a.cls, a.n, op["id"], L)
         else:
@@ -585,8 +586,8 @@ class World2:
             if bad_kind.startswith("len"):
                 if a.cls not in ("data3d", "ft"):
                     return self.skip()
-                L = a.n + int(bad_kind[3:])
-                if L < 0 or L == a.n:
+                L = max(a.n + int(bad_kind[3:]), 0)
+                if L == a.n:
                     return self.skip()
                 items[k] = make_item(a.cls, a.n, ids[k], L)
             else:
